@@ -462,7 +462,7 @@ class Folder:
         k = t[0]
         if k in ('load0', 'load') and isinstance(t[1], tuple) and t[1] and t[1][0] == 'loc':
             pv = promoted_pointee(t[1])
-            if pv is not None:
+            if pv is not None and (pv[0] == 'agg' or (pv[0] == 'const' and isinstance(pv[1], int))):
                 return self.ev(pv)
         if k == 'const':
             if isinstance(t[1], int):
